@@ -165,21 +165,25 @@ def plainInLine (ctx : Ctx) : Char → List Char → Bool
   | prev, c :: rest =>
     (isWhite c || nsPlainChar ctx prev c rest.head?) && plainInLine ctx c rest
 
+/-- The text ends in white space (or is empty). -/
+def lastIsWhite (s : List Char) : Bool :=
+  match s.getLast? with
+  | some l => isWhite l
+  | none => true
+
 /-- [133] ns-plain-one-line(c), with content exactly `s`. -/
 def plainOneLine (ctx : Ctx) (s : List Char) : Bool :=
   match s with
   | [] => false
   | c :: rest =>
-    nsPlainFirst ctx c rest.head? && plainInLine ctx c rest &&
-    !(match (c :: rest).getLast? with | some l => isWhite l | none => true)
+    nsPlainFirst ctx c rest.head? && plainInLine ctx c rest && !lastIsWhite (c :: rest)
 
-/-- [206] c-forbidden at the start of a line: `---` / `...` followed by white space, a break or the
-end of input. -/
+/-- [206] c-forbidden at the start of a line: `---` / `...` followed by white space or a break
+(a key is always followed by its `:`, so the end-of-input alternative does not arise). -/
 def startsWithDocMarker (s : List Char) : Bool :=
   match s with
-  | a :: b :: c :: rest =>
-    ((a = '-' && b = '-' && c = '-') || (a = '.' && b = '.' && c = '.')) &&
-    (match rest with | [] => true | d :: _ => isWhite d || isBreak d)
+  | a :: b :: c :: d :: _ =>
+    ((a = '-' && b = '-' && c = '-') || (a = '.' && b = '.' && c = '.')) && (isWhite d || isBreak d)
   | _ => false
 
 /-- The text `s`, written on one line in context `ctx`, is a plain scalar whose content is `s`. -/
@@ -193,15 +197,6 @@ def plainSafe (ctx : Ctx) (s : List Char) : Bool :=
 
 def hexVal? (c : Char) : Option Nat :=
   if isHexDigit c then some (digitVal c) else none
-
-/-- Read exactly `n` hexadecimal digits. -/
-def readHex : Nat → List Char → Nat → Option (Nat × List Char)
-  | 0, cs, acc => some (acc, cs)
-  | n + 1, c :: cs, acc =>
-    match hexVal? c with
-    | some v => readHex n cs (acc * 16 + v)
-    | none => none
-  | _ + 1, [], _ => none
 
 /-- Single-character escapes of §5.7 ([42]–[58]); `x`, `u`, `U` are handled by the reader. -/
 def escChar (c : Char) : Option Char :=
@@ -224,58 +219,59 @@ def escChar (c : Char) : Option Char :=
   else if c = 'P' then some (Char.ofNat 0x2029)
   else none
 
-/-- Body of a one-line double-quoted scalar (after the opening `"`): decoded content and the text
-after the closing `"`.  A raw line break (multi-line scalar, folding) is outside this reader:
-`none`. -/
-def readDouble : List Char → Option (List Char × List Char)
-  | [] => none
-  | c :: rest =>
+/-- Reader state inside a double-quoted scalar: plain text, just after a `\\`, or inside a
+`\\x`/`\\u`/`\\U` escape with `n` hexadecimal digits still to read and `acc` read so far. -/
+inductive DqState where
+  | text
+  | esc
+  | hex (n : Nat) (acc : Nat)
+
+def consFst (c : Char) (r : Option (List Char × List Char)) : Option (List Char × List Char) :=
+  r.map fun p => (c :: p.1, p.2)
+
+/-- One-line double-quoted scalar body, one character at a time ([107]–[116], escapes [41]–[62]).
+A raw line break (multi-line scalar, folding) is outside this reader: `none`. -/
+def readDoubleSt : DqState → List Char → Option (List Char × List Char)
+  | _, [] => none
+  | .text, c :: rest =>
     if c = '"' then some ([], rest)
     else if isBreak c then none
-    else if c = '\\' then
-      match rest with
-      | [] => none
-      | e :: rest' =>
-        if e = 'x' then
-          match rest' with
-          | a :: b :: r =>
-            (match readHex 2 [a, b] 0 with
-             | some (v, _) => (readDouble r).map fun (s, t) => (Char.ofNat v :: s, t)
-             | none => none)
-          | _ => none
-        else if e = 'u' then
-          match rest' with
-          | a :: b :: c4 :: d :: r =>
-            (match readHex 4 [a, b, c4, d] 0 with
-             | some (v, _) => (readDouble r).map fun (s, t) => (Char.ofNat v :: s, t)
-             | none => none)
-          | _ => none
-        else if e = 'U' then
-          match rest' with
-          | a :: b :: c4 :: d :: e5 :: f :: g :: h :: r =>
-            (match readHex 8 [a, b, c4, d, e5, f, g, h] 0 with
-             | some (v, _) => (readDouble r).map fun (s, t) => (Char.ofNat v :: s, t)
-             | none => none)
-          | _ => none
-        else
-          match escChar e with
-          | some d => (readDouble rest').map fun (s, t) => (d :: s, t)
-          | none => none
-    else (readDouble rest).map fun (s, t) => (c :: s, t)
+    else if c = '\\' then readDoubleSt .esc rest
+    else consFst c (readDoubleSt .text rest)
+  | .esc, e :: rest =>
+    if e = 'x' then readDoubleSt (.hex 2 0) rest
+    else if e = 'u' then readDoubleSt (.hex 4 0) rest
+    else if e = 'U' then readDoubleSt (.hex 8 0) rest
+    else match escChar e with
+      | some d => consFst d (readDoubleSt .text rest)
+      | none => none
+  | .hex 0 _, _ :: _ => none
+  | .hex (n + 1) acc, c :: rest =>
+    match hexVal? c with
+    | none => none
+    | some v =>
+      if n = 0 then consFst (Char.ofNat (acc * 16 + v)) (readDoubleSt .text rest)
+      else readDoubleSt (.hex n (acc * 16 + v)) rest
 
-/-- Body of a one-line single-quoted scalar (after the opening `'`): `''` is a quote, a lone `'`
-closes. -/
-def readSingle : List Char → Option (List Char × List Char)
-  | [] => none
-  | c :: rest =>
-    if c = '\'' then
-      match rest with
-      | c2 :: rest' =>
-        if c2 = '\'' then (readSingle rest').map fun (s, t) => ('\'' :: s, t)
-        else some ([], rest)
-      | [] => some ([], [])
+/-- Body of a one-line double-quoted scalar (after the opening `"`): decoded content and the text
+after the closing `"`. -/
+def readDouble (body : List Char) : Option (List Char × List Char) := readDoubleSt .text body
+
+/-- One-line single-quoted scalar body ([117]–[125]); the flag says the previous character was a
+`'` that is either the first half of `''` or the closing quote. -/
+def readSingleSt : Bool → List Char → Option (List Char × List Char)
+  | false, [] => none
+  | true, [] => some ([], [])
+  | false, c :: rest =>
+    if c = '\'' then readSingleSt true rest
     else if isBreak c then none
-    else (readSingle rest).map fun (s, t) => (c :: s, t)
+    else consFst c (readSingleSt false rest)
+  | true, c :: rest =>
+    if c = '\'' then consFst '\'' (readSingleSt false rest)
+    else some ([], c :: rest)
+
+/-- Body of a one-line single-quoted scalar (after the opening `'`). -/
+def readSingle (body : List Char) : Option (List Char × List Char) := readSingleSt false body
 
 /-- The scalar denoted by the one-line text `t` written in context `ctx`, for a reader that
 resolves plain scalars with `resolve` (`coreResolve`, or the loader's resolver).  `none`: `t` is
